@@ -110,9 +110,9 @@ class Gen:
         vs, hyps, concl = self.assertions[label]
         return (label, [self.wff(sg[v]) for v in vs] + list(hyp_proofs)), subst(concl, sg)
 
-    def derive(self, steps):
-        """random forward derivation: list of (term, proof tree) facts"""
-        facts = []
+    def derive(self, steps, init=()):
+        """random forward derivation: list of (term, proof tree) facts (init: facts given, e.g. the hypotheses of a theorem)"""
+        facts = list(init)
         r = self.r
         for _ in range(steps):
             kind = r.random()
@@ -198,6 +198,13 @@ class Gen:
                 dvl.append(f'   $d {vs[0]} {dummy[-1]} $.')
         if not hyps and not dvl:
             return f'{label} {kw} |- {show(concl)}{tail}'
+        if len(hyps) >= 2 and self.nested and self.r.random() < 0.6:
+            # essential hypotheses at two nesting levels around the assertion
+            lines = ['${', f'   {label}.0 $e |- {show(hyps[0])} $.', '   ${'] + ['   ' + d for d in dvl]
+            for i, h in enumerate(hyps[1:], 1):
+                lines.append(f'      {label}.{i} $e |- {show(h)} $.')
+            lines += [f'      {label} {kw} |- {show(concl)}{tail}', '   $}', '$}']
+            return '\n'.join(lines)
         lines = ['${'] + dvl
         for i, h in enumerate(hyps):
             lines.append(f'   {label}.{i} $e |- {show(h)} $.')
@@ -290,8 +297,12 @@ def uses_dv(pf, g):
     return bool(g.dv.get(pf[0])) or any(uses_dv(c, g) for c in pf[1])
 
 
-def database(rng, nlemmas=2, zmode='random', deep=False, **kw):
-    """returns (text, [lemma labels], {label: statement text})"""
+def uses_label(pf, labels):
+    return pf[0] in labels or any(uses_label(c, labels) for c in pf[1])
+
+
+def database(rng, nlemmas=2, zmode='random', deep=False, lemma_hyps=False, **kw):
+    """returns (text, [lemma labels]); lemma_hyps: some theorems have essential hypotheses of their own"""
     g = Gen(rng, **kw)
     lines = g.preamble()
     for label in g.order:
@@ -310,11 +321,19 @@ def database(rng, nlemmas=2, zmode='random', deep=False, **kw):
         facts.sort(key=lambda f: -int(uses_dv(f[1], g) and bool(proof_vars(f[1]) - tvars(f[0]))))
     for i, (t, pf) in enumerate(facts[:nlemmas]):
         label = f'lemma-{i}' if i < nlemmas - 1 and i < len(facts[:nlemmas]) - 1 else 'goal'
-        mand = [f'{v}-is-pattern' for v in VARS if v in tvars(t)]
+        hyps = []
+        if lemma_hyps and not g.global_d and rng.random() < 0.5:
+            # a theorem with essential hypotheses: derive from them, keep a consequence whose proof uses one
+            hyps = [g.term(1, VARS[:3]) for _ in range(rng.choice([1, 2, 2]))]
+            hl = [f'{label}.{j}' for j in range(len(hyps))]
+            cons = [f for f in g.derive(8, init=[(h, (hl[j], [])) for j, h in enumerate(hyps)]) if uses_label(f[1], set(hl))]
+            t, pf = max(cons, key=lambda f: tree_size(f[1]))
+        hv = set().union(*[tvars(h) for h in hyps]) if hyps else set()
+        mand = [f'{v}-is-pattern' for v in VARS if v in (tvars(t) | hv)] + [f'{label}.{j}' for j in range(len(hyps))]
         listed, letters = compress(pf, mand, zmode, rng)
         # break the letter string over lines like metamath.exe does
         proof = '( ' + ' '.join(listed) + (' ' if listed else '') + ') ' + ' '.join(letters[j:j + 30] for j in range(0, max(len(letters), 1), 30))
-        g.add(label, [], t)
+        g.add(label, hyps, t)
         g.add_inherited_dv(label)
         lines.append(g.assertion_text(label, '$p', proof))
         lemmas.append(label)
